@@ -620,3 +620,785 @@ Proof.
   repeat split; auto.
   rewrite map_app, <- !app_assoc. reflexivity.
 Qed.
+
+
+Ltac ncongr := unfold id, wire in *; congruence.
+
+Lemma open_of_length n t : length (open_of n t) = nopen n.
+Proof. unfold open_of, nopen. rewrite skipn_length, laxes_length. reflexivity. Qed.
+
+Lemma contract_tensors_aget (T : list (id * sarr)) p c new nt k :
+  NoDup (akeys T) -> aget new (adel c (adel p T)) = None ->
+  aget k (adel c (adel p T) ++ [(new, nt)])
+  = if Nat.eqb k new then Some nt else if Nat.eqb k p || Nat.eqb k c then None else aget k T.
+Proof.
+  intros Hnd Hn. rewrite aget_app. destruct (Nat.eqb_spec k new) as [->|Hk].
+  - rewrite Hn. cbn. rewrite Nat.eqb_refl. reflexivity.
+  - rewrite (aget_adel k c) by (apply NoDup_akeys_adel; exact Hnd). rewrite (aget_adel k p) by exact Hnd.
+    destruct (Nat.eqb k c), (Nat.eqb k p); cbn; try (destruct (Nat.eqb_spec k new); [congruence|reflexivity]).
+    destruct (aget k T); [reflexivity|]. destruct (Nat.eqb_spec k new); [congruence|reflexivity].
+Qed.
+
+Lemma ccn_seq np a op b oc lp : lp - 1 = np + a + op ->
+  seq 0 (np + a + op + b + oc) = seq 0 np ++ seq np a ++ seq (np + a) op ++ seq (lp - 1) b ++ seq (lp - 1 + b) oc.
+Proof.
+  intros H. rewrite H. replace (np + a + op + b + oc) with (np + (a + (op + (b + oc)))) by lia.
+  rewrite (seq_app np), (seq_app a), (seq_app op), (seq_app b). cbn [Nat.add].
+  reflexivity.
+Qed.
+
+Lemma ccn_perm_Permutation first np a b op oc lp : lp - 1 = np + a + op ->
+  Permutation (ccn_perm first np a b op oc lp) (seq 0 (np + a + op + b + oc)).
+Proof.
+  intros H. rewrite (ccn_seq np a op b oc lp H). unfold ccn_perm. apply Permutation_app_head.
+  destruct first.
+  - apply Permutation_app_head. rewrite !app_assoc. apply Permutation_app_tail. apply Permutation_app_comm.
+  - etransitivity; [apply Permutation_app_comm|]. rewrite <- !app_assoc. apply Permutation_app_head.
+    rewrite !app_assoc. etransitivity; [|apply Permutation_app_comm]. rewrite !app_assoc. reflexivity.
+Qed.
+
+Section ContractCore.
+  Variables (s s' : store) (p c new : id) (pn cn nn : node) (ax : nat) (nt : sarr) (first : bool).
+  Hypothesis W : wf s.
+  Hypothesis Ep : aget p (nodes s) = Some pn.
+  Hypothesis Ec : aget c (nodes s) = Some cn.
+  Hypothesis Hpc : parent cn = Some p.
+  Hypothesis Pp : perm pn = seq 0 (nlegs pn).
+  Hypothesis Pc : perm cn = seq 0 (nlegs cn).
+  Hypothesis Hnew : new = p \/ new = c \/ ~ In new (akeys (nodes s)).
+  Hypothesis Hax : neighbour_index pn c = Some ax.
+  Hypothesis Htd : s_tensordot (tens s p) (tens s c) ax 0 = Some nt.
+  Hypothesis Hnn : create_contracted_node (map (wdim s) (axes nt)) pn cn c first = Some nn.
+  Hypothesis V1 : NoDup (akeys (nodes s')).
+  Hypothesis V2 : aget new (nodes s') = Some nn.
+  Hypothesis V3 : p <> new -> aget p (nodes s') = None.
+  Hypothesis V4 : c <> new -> aget c (nodes s') = None.
+  Hypothesis V5 : forall k, k <> p -> k <> c -> k <> new ->
+     aget k (nodes s') = option_map (rt p c new (children pn) (children cn) (parent pn) k) (aget k (nodes s)).
+  Hypothesis V6 : root s' = (match parent pn with None => Some new | Some _ => root s end).
+  Hypothesis V7 : tensors s' = adel c (adel p (tensors s)) ++ [(new, nt)].
+  Hypothesis V8 : dims s' = dims s.
+  Hypothesis V9 : next_wire s' = next_wire s.
+
+  Let chp := children pn.
+  Let chc := children cn.
+  Let RT := rt p c new chp chc (parent pn).
+  Let PO := open_of pn (tens s p).
+  Let CO := open_of cn (tens s c).
+  Let pch := remove_first c chp.
+
+  Lemma cc_pc : p <> c.
+  Proof. intros ->. apply (wf_not_self_parent s c cn W Ec Hpc). Qed.
+
+  Lemma cc_newkey k : In k (akeys (nodes s)) -> k <> p -> k <> c -> k <> new.
+  Proof. intros Hk H1 H2 E. subst k. destruct Hnew as [E|[E|E]]; [apply H1; exact E|apply H2; exact E|apply E; exact Hk]. Qed.
+
+  Lemma cc_memb_chp k nk : aget k (nodes s) = Some nk -> (memb k chp = true <-> parent nk = Some p).
+  Proof.
+    intros E. split.
+    - intros Hm. apply memb_In in Hm. destruct (wf_child_parent s p pn k W Ep Hm) as (xn & E1 & E2). ncongr.
+    - intros Hp. apply memb_In. destruct (wf_parent_child s k nk p W E Hp) as (pn' & E1 & E2). unfold chp. ncongr.
+  Qed.
+
+  Lemma cc_memb_chc k nk : aget k (nodes s) = Some nk -> (memb k chc = true <-> parent nk = Some c).
+  Proof.
+    intros E. split.
+    - intros Hm. apply memb_In in Hm. destruct (wf_child_parent s c cn k W Ec Hm) as (xn & E1 & E2). ncongr.
+    - intros Hp. apply memb_In. destruct (wf_parent_child s k nk c W E Hp) as (pn' & E1 & E2). unfold chc. ncongr.
+  Qed.
+
+  (* the parent of a rewritten node *)
+  Lemma cc_rt_parent k nk : aget k (nodes s) = Some nk ->
+    parent (RT k nk) = match parent nk with
+                       | Some q => if Nat.eqb q p || Nat.eqb q c then Some new else Some q
+                       | None => None
+                       end.
+  Proof.
+    intros E. unfold RT, rt. cbn [parent].
+    destruct (memb k chp) eqn:H1; [apply (cc_memb_chp k nk E) in H1; rewrite H1; cbn beta iota; rewrite Nat.eqb_refl; reflexivity|].
+    destruct (memb k chc) eqn:H2; [apply (cc_memb_chc k nk E) in H2; rewrite H2; cbn beta iota; rewrite Nat.eqb_refl, !orb_true_r; reflexivity|].
+    cbn. destruct (parent nk) as [q|] eqn:Eq; [|reflexivity].
+    destruct (Nat.eqb_spec q p) as [->|]; [apply (cc_memb_chp k nk E) in Eq; congruence|].
+    destruct (Nat.eqb_spec q c) as [->|]; [apply (cc_memb_chc k nk E) in Eq; congruence|]. reflexivity.
+  Qed.
+
+  Lemma cc_rt_nparents k nk : aget k (nodes s) = Some nk -> nparents (RT k nk) = nparents nk.
+  Proof.
+    intros E. unfold nparents. rewrite (cc_rt_parent k nk E). destruct (parent nk) as [q|]; [|reflexivity].
+    destruct (_ || _); reflexivity.
+  Qed.
+
+  Lemma cc_rt_children_length k nk : length (children (RT k nk)) = length (children nk).
+  Proof. unfold RT, rt. cbn [children]. destruct (match parent pn with Some q => k =? q | None => false end); [apply replace_first_length|reflexivity]. Qed.
+
+  Lemma cc_rt_nvirt k nk : aget k (nodes s) = Some nk -> nvirt (RT k nk) = nvirt nk.
+  Proof. intros E. unfold nvirt. rewrite (cc_rt_nparents k nk E), cc_rt_children_length. reflexivity. Qed.
+
+  Lemma cc_fresh_t : aget new (adel c (adel p (tensors s))) = None.
+  Proof.
+    pose proof (wf_tnd s W) as Hnd. rewrite (aget_adel new c) by (apply NoDup_akeys_adel; exact Hnd).
+    rewrite (aget_adel new p) by exact Hnd.
+    destruct (Nat.eqb_spec new c); [reflexivity|]. destruct (Nat.eqb_spec new p); [reflexivity|].
+    destruct Hnew as [?|[?|Hn]]; [congruence|congruence|]. apply aget_None. intros Hk. apply Hn.
+    apply (wf_keys_iff s new W). exact Hk.
+  Qed.
+
+  Lemma cc_tens_new : tens s' new = nt.
+  Proof. unfold tens. rewrite V7, (contract_tensors_aget _ _ _ _ _ _ (wf_tnd s W) cc_fresh_t), Nat.eqb_refl. reflexivity. Qed.
+
+  Lemma cc_tens_other k : k <> p -> k <> c -> k <> new -> tens s' k = tens s k.
+  Proof.
+    intros H1 H2 H3. unfold tens. rewrite V7, (contract_tensors_aget _ _ _ _ _ _ (wf_tnd s W) cc_fresh_t).
+    destruct (Nat.eqb_spec k new); [congruence|]. destruct (Nat.eqb_spec k p); [congruence|].
+    destruct (Nat.eqb_spec k c); [congruence|]. reflexivity.
+  Qed.
+
+  Lemma cc_lax_other k nk : k <> p -> k <> c -> k <> new -> lax s' k (RT k nk) = lax s k nk.
+  Proof. intros H1 H2 H3. unfold lax. rewrite (cc_tens_other k H1 H2 H3). reflexivity. Qed.
+
+  (* every node of s' is the new node or a rewritten old node *)
+  Lemma cc_nodes' k nk' : aget k (nodes s') = Some nk' ->
+    (k = new /\ nk' = nn) \/
+    (k <> p /\ k <> c /\ k <> new /\ exists nk, aget k (nodes s) = Some nk /\ nk' = RT k nk).
+  Proof.
+    intros E. destruct (Nat.eq_dec k new) as [->|H3]; [left; split; [reflexivity|congruence]|].
+    destruct (Nat.eq_dec k p) as [->|H1]; [rewrite V3 in E by congruence; discriminate|].
+    destruct (Nat.eq_dec k c) as [->|H2]; [rewrite V4 in E by congruence; discriminate|].
+    right. repeat split; auto. rewrite (V5 k H1 H2 H3) in E.
+    destruct (aget k (nodes s)) as [nk|]; [|discriminate]. injection E as <-. eauto.
+  Qed.
+
+  Lemma cc_old_node k nk : aget k (nodes s) = Some nk -> k <> p -> k <> c ->
+    k <> new /\ aget k (nodes s') = Some (RT k nk).
+  Proof.
+    intros E H1 H2. assert (H3 : k <> new) by (apply cc_newkey; [eapply aget_Some_keys; eauto|exact H1|exact H2]).
+    split; [exact H3|]. rewrite (V5 k H1 H2 H3), E. reflexivity.
+  Qed.
+
+  (* the segments of the two logical tensors and of the contracted tensor *)
+  Lemma cc_segments : exists P0 ch1 ch2,
+     chp = ch1 ++ c :: ch2 /\ ~ In c ch1 /\ pch = ch1 ++ ch2 /\
+     lax s p pn = P0 ++ map (ew s) chp ++ PO /\ length P0 = nparents pn /\ P0 = firstn (nparents pn) (lax s p pn) /\
+     lax s c cn = ew s c :: map (ew s) chc ++ CO /\
+     axes nt = P0 ++ map (ew s) pch ++ PO ++ map (ew s) chc ++ CO.
+  Proof.
+    destruct (contract_segments s p c pn cn ax nt W Ep Ec Hpc Pp Pc Hax Htd)
+      as (P0 & ch1 & ch2 & H1 & H2 & H3 & H4 & H5 & H6 & H7 & _).
+    exists P0, ch1, ch2. assert (Hpch : pch = ch1 ++ ch2).
+    { unfold pch, chp. rewrite H1. rewrite remove_first_app_r by exact H2. cbn. rewrite Nat.eqb_refl. reflexivity. }
+    repeat split; auto. rewrite Hpch. exact H7.
+  Qed.
+
+  Lemma cc_nn :
+     parent nn = parent pn /\ shape nn = map (wdim s) (axes nt) /\
+     children nn = (if first then pch ++ chc else chc ++ pch) /\
+     Permutation (perm nn) (seq 0 (length (axes nt))) /\
+     nlegs nn = length (axes nt) /\ nvirt nn <= nlegs nn /\
+     laxes nn nt = firstn (nparents pn) (lax s p pn) ++ map (ew s) (children nn) ++ (if first then PO ++ CO else CO ++ PO).
+  Proof.
+    destruct cc_segments as (P0 & ch1 & ch2 & Hch & Hni & Hpch & Dp & HlenP0 & HP0 & Dc & Hnt).
+    pose proof (wf_node s W p pn Ep) as Hnp. pose proof (wf_node s W c cn Ec) as Hnc.
+    assert (Hlp : nlegs pn = length P0 + length chp + length PO).
+    { rewrite <- (laxes_length pn (tens s p)). fold (lax s p pn). rewrite Dp, !app_length, map_length. nlia. }
+    assert (Hlc : nlegs cn = 1 + length chc + length CO).
+    { rewrite <- (laxes_length cn (tens s c)). fold (lax s c cn). rewrite Dc. cbn [length]. rewrite app_length, map_length. nlia. }
+    assert (Hlchp : length chp = S (length pch)).
+    { rewrite Hch, Hpch, !app_length. cbn. nlia. }
+    assert (Hlnt : length (axes nt) = nlegs pn - 1 + (nlegs cn - 1)).
+    { rewrite Hnt, !app_length, !map_length. nlia. }
+    assert (Hinc : In c (children pn)). { fold chp. rewrite Hch. apply in_or_app. right. left. reflexivity. }
+    assert (Hpc1 : nparents cn = 1) by (unfold nparents; rewrite Hpc; reflexivity).
+    destruct (ccn_spec _ pn cn c first nn Hnn Hinc (ni_virt _ _ _ Hnp) (ni_virt _ _ _ Hnc) Hpc1)
+      as (N1 & N2 & N3 & N4).
+    { rewrite map_length. exact Hlnt. }
+    fold chp pch chc in N3, N4.
+    assert (HPO : length PO = nopen pn) by apply open_of_length.
+    assert (HCO : length CO = nopen cn) by apply open_of_length.
+    assert (Hlax : laxes nn nt = P0 ++ map (ew s) (children nn) ++ (if first then PO ++ CO else CO ++ PO)).
+    { unfold laxes, permute. rewrite N4, Hnt, <- HlenP0, <- HPO, <- HCO. unfold id, wire in *.
+      replace (length pch) with (length (map (ew s) pch)) by apply map_length.
+      replace (length chc) with (length (map (ew s) chc)) by apply map_length.
+      rewrite ccn_laxes by (rewrite map_length; nlia).
+      rewrite N3. destruct first; rewrite map_app, <- !app_assoc; reflexivity. }
+    assert (Hnl : nlegs nn = length (axes nt)).
+    { rewrite <- (laxes_length nn nt), Hlax, Hnt, N3, !app_length, !map_length.
+      destruct first; rewrite !app_length; nlia. }
+    repeat split; auto.
+    - rewrite N4, Hlnt.
+      replace (nlegs pn - 1 + (nlegs cn - 1)) with (nparents pn + length pch + nopen pn + length chc + nopen cn) by nlia.
+      apply ccn_perm_Permutation. nlia.
+    - unfold nvirt. rewrite Hnl, Hlnt, N3. unfold nparents. rewrite N1. fold (nparents pn).
+      destruct first; rewrite app_length; nlia.
+    - rewrite Hlax, HP0. reflexivity.
+  Qed.
+
+  Lemma cc_wdim w : wdim s' w = wdim s w.
+  Proof. unfold wdim. rewrite V8. reflexivity. Qed.
+
+  Lemma cc_P0_length : length (firstn (nparents pn) (lax s p pn)) = nparents pn.
+  Proof.
+    apply firstn_length_le. unfold lax. rewrite laxes_length.
+    pose proof (ni_virt _ _ _ (wf_node s W p pn Ep)) as Hv. unfold nvirt in Hv. nlia.
+  Qed.
+
+  Lemma cc_own_nn :
+    own_of nn nt = firstn (nparents pn) (lax s p pn) ++ (if first then PO ++ CO else CO ++ PO)
+    /\ open_of nn nt = (if first then PO ++ CO else CO ++ PO).
+  Proof.
+    destruct cc_nn as (N1 & N2 & N3 & N4 & N5 & N6 & N7). pose proof cc_P0_length as HP0.
+    set (P0 := firstn (nparents pn) (lax s p pn)) in *.
+    assert (Hnp : nparents nn = length P0) by (unfold nparents; rewrite N1; fold (nparents pn); nlia).
+    assert (Hnv : nvirt nn = length (P0 ++ map (ew s) (children nn))).
+    { unfold nvirt. rewrite Hnp, app_length, map_length. reflexivity. }
+    unfold own_of, open_of. rewrite N7, Hnp, Hnv. rewrite firstn_app_len.
+    rewrite (app_assoc P0). rewrite skipn_app_len. split; reflexivity.
+  Qed.
+
+  Lemma cc_own_p : own_of pn (tens s p) = firstn (nparents pn) (lax s p pn) ++ PO.
+  Proof. reflexivity. Qed.
+
+  Lemma cc_own_c : own_of cn (tens s c) = ew s c :: CO.
+  Proof.
+    destruct cc_segments as (P0 & ch1 & ch2 & _ & _ & _ & _ & _ & _ & Dc & _).
+    unfold own_of. change (skipn (nvirt cn) (laxes cn (tens s c))) with CO.
+    change (laxes cn (tens s c)) with (lax s c cn). unfold nparents. rewrite Hpc, Dc. reflexivity.
+  Qed.
+
+  Lemma cc_own_nn_in w : In w (own_of nn nt) -> In w (own_of pn (tens s p)) \/ In w (own_of cn (tens s c)).
+  Proof.
+    destruct cc_own_nn as [H _]. rewrite H, cc_own_p, cc_own_c. cbn [In].
+    destruct first; rewrite !in_app_iff; tauto.
+  Qed.
+
+  Lemma cc_own_nn_nodup : NoDup (own_of nn nt).
+  Proof.
+    destruct cc_own_nn as [H _]. rewrite H.
+    pose proof (wf_own1 s W p pn Ep) as H1. rewrite cc_own_p in H1.
+    pose proof (wf_own1 s W c cn Ec) as H2. rewrite cc_own_c in H2.
+    assert (Hd : forall w, In w (firstn (nparents pn) (lax s p pn) ++ PO) -> ~ In w CO).
+    { intros w Hw1 Hw2. apply cc_pc. apply (wf_own2 s W p pn c cn w Ep Ec).
+      - rewrite cc_own_p. exact Hw1.
+      - rewrite cc_own_c. right. exact Hw2. }
+    inversion H2 as [|? ? _ H2']; subst.
+    assert (Hall : NoDup ((firstn (nparents pn) (lax s p pn) ++ PO) ++ CO)).
+    { apply NoDup_app_iff. repeat split; assumption. }
+    destruct first.
+    - rewrite app_assoc. exact Hall.
+    - apply Permutation_NoDup with (l := (firstn (nparents pn) (lax s p pn) ++ PO) ++ CO); [|exact Hall].
+      rewrite <- app_assoc. apply Permutation_app_head. apply Permutation_app_comm.
+  Qed.
+
+  Lemma cc_own_other k nk : aget k (nodes s) = Some nk -> k <> p -> k <> c -> k <> new ->
+    own_of (RT k nk) (tens s' k) = own_of nk (tens s k) /\ open_of (RT k nk) (tens s' k) = open_of nk (tens s k).
+  Proof.
+    intros E H1 H2 H3. unfold own_of, open_of. rewrite (cc_rt_nparents k nk E), (cc_rt_nvirt k nk E), (cc_tens_other k H1 H2 H3).
+    split; reflexivity.
+  Qed.
+
+  (* new is not a child of an old node other than p (unless it reuses p's identifier) *)
+  Lemma cc_new_notin k nk : aget k (nodes s) = Some nk -> new <> p -> k <> p -> ~ In new (children nk).
+  Proof.
+    intros E Hnp Hkp Hin. destruct (wf_child_parent s k nk new W E Hin) as (xn & Ex & Epx).
+    destruct Hnew as [?|[->|Hn]]; [congruence| |apply Hn; eapply aget_Some_keys; eauto].
+    rewrite Ec in Ex. injection Ex as <-. ncongr.
+  Qed.
+
+  Lemma cc_children_nodup : NoDup (children nn).
+  Proof.
+    destruct cc_nn as (_ & _ & N3 & _). rewrite N3.
+    pose proof (ni_chnd _ _ _ (wf_node s W p pn Ep)) as Hp. pose proof (ni_chnd _ _ _ (wf_node s W c cn Ec)) as Hc.
+    destruct (remove_first_NoDup c chp Hp) as [Hpch _]. fold pch in Hpch.
+    assert (Hd : forall x, In x pch -> ~ In x chc).
+    { intros x Hx1 Hx2. apply remove_first_In in Hx1.
+      destruct (wf_child_parent s p pn x W Ep Hx1) as (xn & Ex & Epx).
+      destruct (wf_child_parent s c cn x W Ec Hx2) as (xn' & Ex' & Epx').
+      apply cc_pc. ncongr. }
+    destruct first; apply NoDup_app_iff; repeat split; auto.
+    intros x Hx1 Hx2. apply (Hd x Hx2 Hx1).
+  Qed.
+
+  (* a child of the new node: an old child of p (other than c) or of c *)
+  Lemma cc_child_cases x : In x (children nn) ->
+    exists xn, aget x (nodes s) = Some xn /\ (parent xn = Some p \/ parent xn = Some c) /\ x <> p /\ x <> c.
+  Proof.
+    destruct cc_nn as (_ & _ & N3 & _). rewrite N3. intros Hx.
+    pose proof (ni_chnd _ _ _ (wf_node s W p pn Ep)) as Hp.
+    destruct (remove_first_NoDup c chp Hp) as [_ Hcn]. fold pch in Hcn.
+    assert (Hx' : In x pch \/ In x chc) by (destruct first; apply in_app_or in Hx; tauto).
+    destruct Hx' as [Hx'|Hx'].
+    - assert (Hxc : x <> c) by (intros ->; contradiction).
+      apply remove_first_In in Hx'. destruct (wf_child_parent s p pn x W Ep Hx') as (xn & Ex & Epx).
+      exists xn. repeat split; auto. intros ->. rewrite Ep in Ex. injection Ex as <-.
+      apply (wf_not_self_parent s p pn W Ep Epx).
+    - destruct (wf_child_parent s c cn x W Ec Hx') as (xn & Ex & Epx).
+      exists xn. repeat split; auto.
+      + intros ->. rewrite Ep in Ex. injection Ex as <-. apply (wf_parent_not_child s c cn p pn W Ec Hpc Ep Epx).
+      + intros ->. rewrite Ec in Ex. injection Ex as <-. apply (wf_not_self_parent s c cn W Ec Epx).
+  Qed.
+
+  Lemma cc_child_in k nk : aget k (nodes s) = Some nk -> k <> c -> (parent nk = Some p \/ parent nk = Some c) ->
+    In k (children nn).
+  Proof.
+    intros E Hkc Hpar. destruct cc_nn as (_ & _ & N3 & _). rewrite N3.
+    assert (H : In k pch \/ In k chc).
+    { destruct Hpar as [Hpar|Hpar].
+      - left. apply remove_first_In_other; [exact Hkc|]. apply memb_In. apply (cc_memb_chp k nk E). exact Hpar.
+      - right. apply memb_In. apply (cc_memb_chc k nk E). exact Hpar. }
+    destruct first; apply in_or_app; tauto.
+  Qed.
+
+  Lemma cc_amem_new : amem new (tensors s') = true.
+  Proof.
+    apply amem_aget. exists nt. rewrite V7, (contract_tensors_aget _ _ _ _ _ _ (wf_tnd s W) cc_fresh_t), Nat.eqb_refl. reflexivity.
+  Qed.
+
+  Lemma cc_amem_other k : k <> p -> k <> c -> k <> new -> amem k (tensors s') = amem k (tensors s).
+  Proof.
+    intros H1 H2 H3. unfold amem. rewrite V7, (contract_tensors_aget _ _ _ _ _ _ (wf_tnd s W) cc_fresh_t).
+    destruct (Nat.eqb_spec k new); [congruence|]. destruct (Nat.eqb_spec k p); [congruence|].
+    destruct (Nat.eqb_spec k c); [congruence|]. reflexivity.
+  Qed.
+
+  Lemma cc_lax_new : lax s' new nn = laxes nn nt.
+  Proof. unfold lax. rewrite cc_tens_new. reflexivity. Qed.
+
+  (* depth facts *)
+  Lemma cc_no_cycle3 k nk : aget k (nodes s) = Some nk -> (parent nk = Some p \/ parent nk = Some c) -> parent pn <> Some k.
+  Proof.
+    intros E Hpar Hk. destruct (wf_acyc s W) as [d Hd].
+    pose proof (Hd c cn p Ec Hpc). pose proof (Hd p pn k Ep Hk).
+    destruct Hpar as [Hpar|Hpar]; pose proof (Hd k nk _ E Hpar); nlia.
+  Qed.
+
+  Lemma cc_node_inv_new : node_inv s' new nn.
+  Proof.
+    destruct cc_nn as (N1 & N2 & N3 & N4 & N5 & N6 & N7).
+    constructor.
+    - exact cc_amem_new.
+    - rewrite N2, map_length. exact N4.
+    - rewrite cc_tens_new, N2. apply map_ext. intros w. symmetry. apply cc_wdim.
+    - exact N6.
+    - exact cc_children_nodup.
+    - intros x Hx. destruct (cc_child_cases x Hx) as (xn & Ex & Hpar & Hxp & Hxc).
+      destruct (cc_old_node x xn Ex Hxp Hxc) as [_ Ex']. exists (RT x xn). split; [exact Ex'|].
+      rewrite (cc_rt_parent x xn Ex). destruct Hpar as [-> | ->]; rewrite Nat.eqb_refl, ?orb_true_r; reflexivity.
+    - intros q Hq. rewrite N1 in Hq.
+      destruct (ni_par _ _ _ (wf_node s W p pn Ep) q Hq) as (qn & i & Eq & Hin & Hni & Hw).
+      assert (Hqp : q <> p) by (intros ->; apply (wf_not_self_parent s p pn W Ep Hq)).
+      assert (Hqc : q <> c) by (intros ->; apply (wf_parent_not_child s c cn p pn W Ec Hpc Ep Hq)).
+      destruct (cc_old_node q qn Eq Hqp Hqc) as [Hqn Eq'].
+      assert (Hch' : children (RT q qn) = replace_first p new (children qn)).
+      { unfold RT, rt. cbn [children]. rewrite Hq, Nat.eqb_refl. reflexivity. }
+      assert (Hnotin : ~ In new (children qn) \/ new = p).
+      { destruct (Nat.eq_dec new p) as [->|Hnp]; [right; reflexivity|left]. apply (cc_new_notin q qn Eq Hnp Hqp). }
+      assert (Hqpar : parent qn <> Some p) by apply (wf_parent_not_child s p pn q qn W Ep Hq Eq).
+      assert (Hqpar' : parent (RT q qn) <> Some new).
+      { rewrite (cc_rt_parent q qn Eq). destruct (parent qn) as [r|] eqn:Er; [|discriminate].
+        destruct (Nat.eqb_spec r p) as [->|Hrp]; [congruence|].
+        destruct (Nat.eqb_spec r c) as [->|Hrc].
+        - exfalso. destruct (wf_acyc s W) as [d Hd].
+          pose proof (Hd c cn p Ec Hpc). pose proof (Hd p pn q Ep Hq). pose proof (Hd q qn c Eq Er). nlia.
+        - cbn. intros [= ->]. destruct (wf_parent_child s q qn new W Eq Er) as (rn & Ern & _).
+          apply (cc_newkey new); [eapply aget_Some_keys; eauto|exact Hrp|exact Hrc|reflexivity]. }
+      exists (RT q qn), i. repeat split.
+      + exact Eq'.
+      + rewrite Hch'. apply replace_first_In. exact Hin.
+      + rewrite (neighbour_index_child _ _ Hqpar'). rewrite (neighbour_index_child _ _ Hqpar) in Hni.
+        rewrite Hch', (index_of_replace_first_new p new _ Hnotin), (cc_rt_nparents q qn Eq). exact Hni.
+      + rewrite cc_lax_new, N7, (cc_lax_other q qn Hqp Hqc Hqn), <- Hw.
+        assert (Hnp1 : nparents pn = 1) by (unfold nparents; rewrite Hq; reflexivity).
+        pose proof cc_P0_length as HP0. rewrite app_nth1 by nlia. rewrite nth_firstn_lt by nlia. reflexivity.
+  Qed.
+
+  Lemma cc_node_inv_other k nk : aget k (nodes s) = Some nk -> k <> p -> k <> c -> node_inv s' k (RT k nk).
+  Proof.
+    intros E H1 H2. destruct (cc_old_node k nk E H1 H2) as [H3 E'].
+    pose proof (wf_node s W k nk E) as Hn.
+    assert (Hpp : forall q, parent pn = Some q -> k = q -> new = p \/ ~ In new (children nk)).
+    { intros q Hq ->. destruct (Nat.eq_dec new p) as [->|Hnp]; [left; reflexivity|right]. apply (cc_new_notin q nk E Hnp H1). }
+    constructor.
+    - rewrite (cc_amem_other k H1 H2 H3). apply (ni_t _ _ _ Hn).
+    - apply (ni_perm _ _ _ Hn).
+    - rewrite (cc_tens_other k H1 H2 H3). change (shape (RT k nk)) with (shape nk). rewrite (ni_shape _ _ _ Hn).
+      apply map_ext. intros w. symmetry. apply cc_wdim.
+    - rewrite (cc_rt_nvirt k nk E). apply (ni_virt _ _ _ Hn).
+    - unfold RT, rt. cbn [children]. destruct (parent pn) as [q|] eqn:Eq; [|apply (ni_chnd _ _ _ Hn)].
+      destruct (Nat.eqb_spec k q) as [Hkq|]; [|apply (ni_chnd _ _ _ Hn)].
+      apply replace_first_NoDup; [apply (ni_chnd _ _ _ Hn)|]. destruct (Hpp q eq_refl Hkq); [right|left]; assumption.
+    - intros x Hx.
+      assert (Hx' : (x = new /\ parent pn = Some k) \/ (In x (children nk) /\ x <> p)).
+      { unfold RT, rt in Hx. cbn [children] in Hx. destruct (parent pn) as [q|] eqn:Eq.
+        - destruct (Nat.eqb_spec k q) as [->|Hkq].
+          + apply replace_first_In_inv in Hx; [|apply (ni_chnd _ _ _ Hn)]. destruct Hx as [->|[Hx Hxp]]; [left; auto|right; auto].
+          + right. split; [exact Hx|]. intros ->. destruct (wf_child_parent s k nk p W E Hx) as (xn & Ex & Epx). ncongr.
+        - right. split; [exact Hx|]. intros ->. destruct (wf_child_parent s k nk p W E Hx) as (xn & Ex & Epx). ncongr. }
+      destruct Hx' as [[-> Hq]|[Hx' Hxp]].
+      + exists nn. split; [exact V2|]. destruct cc_nn as (N1 & _). rewrite N1. exact Hq.
+      + destruct (wf_child_parent s k nk x W E Hx') as (xn & Ex & Epx).
+        assert (Hxc : x <> c) by (intros ->; ncongr).
+        destruct (cc_old_node x xn Ex Hxp Hxc) as [_ Ex']. exists (RT x xn). split; [exact Ex'|].
+        rewrite (cc_rt_parent x xn Ex), Epx.
+        destruct (Nat.eqb_spec k p); [congruence|]. destruct (Nat.eqb_spec k c); [congruence|]. reflexivity.
+    - intros q Hq. rewrite (cc_rt_parent k nk E) in Hq. destruct (parent nk) as [r|] eqn:Er; [|discriminate].
+      destruct (Nat.eqb r p || Nat.eqb r c) eqn:Hrpc.
+      + injection Hq as <-.
+        assert (Hpar : Some r = Some p \/ Some r = Some c).
+        { apply orb_true_iff in Hrpc. destruct Hrpc as [Hr|Hr]; apply Nat.eqb_eq in Hr; subst; auto. }
+        destruct cc_nn as (N1 & N2 & N3 & N4 & N5 & N6 & N7).
+        assert (Hkin : In k (children nn)) by (apply (cc_child_in k nk E H2); rewrite Er; exact Hpar).
+        assert (Hnnp : parent nn <> Some k).
+        { rewrite N1. apply (cc_no_cycle3 k nk E). rewrite Er. exact Hpar. }
+        assert (HlenP0 : length (firstn (nparents pn) (lax s p pn)) = nparents nn).
+        { rewrite cc_P0_length. unfold nparents. rewrite N1. reflexivity. }
+        destruct (child_edge_from_decomp nn _ _ _ (ew s) k N7 HlenP0 Hnnp Hkin) as (i & Hi1 & Hi2).
+        exists nn, i. repeat split; auto.
+        rewrite cc_lax_new, Hi2, (cc_lax_other k nk H1 H2 H3). unfold ew. rewrite E. reflexivity.
+      + injection Hq as <-. apply orb_false_iff in Hrpc. destruct Hrpc as [Hrp Hrc].
+        apply Nat.eqb_neq in Hrp. apply Nat.eqb_neq in Hrc.
+        destruct (ni_par _ _ _ Hn r Er) as (rn & i & Ern & Hin & Hni & Hw).
+        destruct (cc_old_node r rn Ern Hrp Hrc) as [Hrn Ern'].
+        assert (Hrk : parent rn <> Some k) by apply (wf_parent_not_child s k nk r rn W E Er Ern).
+        assert (Hrk' : parent (RT r rn) <> Some k).
+        { rewrite (cc_rt_parent r rn Ern). destruct (parent rn) as [r2|]; [|discriminate].
+          destruct (_ || _); [intros [= ->]; congruence|exact Hrk]. }
+        assert (Hidx : index_of k (children (RT r rn)) = index_of k (children rn)).
+        { unfold RT, rt. cbn [children]. destruct (match parent pn with Some q => r =? q | None => false end); [|reflexivity].
+          apply index_of_replace_first_other; assumption. }
+        exists (RT r rn), i. repeat split.
+        * exact Ern'.
+        * unfold RT, rt. cbn [children]. destruct (match parent pn with Some q => r =? q | None => false end); [|exact Hin].
+          apply replace_first_In_other; assumption.
+        * rewrite (neighbour_index_child _ _ Hrk'). rewrite (neighbour_index_child _ _ Hrk) in Hni.
+          rewrite Hidx, (cc_rt_nparents r rn Ern). exact Hni.
+        * rewrite (cc_lax_other k nk H1 H2 H3), (cc_lax_other r rn Hrp Hrc Hrn). exact Hw.
+  Qed.
+
+  Theorem cc_wf : wf s'.
+  Proof.
+    constructor.
+    - exact V1.
+    - rewrite V7. apply NoDup_akeys_snoc; [|exact cc_fresh_t]. apply NoDup_akeys_adel, NoDup_akeys_adel, (wf_tnd s W).
+    - intros k Hk. destruct (Nat.eq_dec k new) as [->|H3]; [apply amem_aget; eauto|].
+      apply amem_aget in Hk. destruct Hk as [t Ht].
+      rewrite V7, (contract_tensors_aget _ _ _ _ _ _ (wf_tnd s W) cc_fresh_t) in Ht.
+      destruct (Nat.eqb_spec k new); [congruence|]. destruct (Nat.eqb_spec k p) as [|H1]; [discriminate|].
+      destruct (Nat.eqb_spec k c) as [|H2]; [discriminate|]. cbn in Ht.
+      assert (Hm : amem k (nodes s) = true) by (apply (wf_tn s W); apply amem_aget; eauto).
+      apply amem_aget in Hm. destruct Hm as [nk Enk]. destruct (cc_old_node k nk Enk H1 H2) as [_ E']. apply amem_aget. eauto.
+    - destruct (wf_root s W) as (r & rn & Hr & Er & Hpr & Hu). destruct cc_nn as (N1 & _).
+      assert (Hcase : (exists q, parent pn = Some q) \/ parent pn = None) by (destruct (parent pn); eauto).
+      destruct Hcase as [[q Eq]|Eq].
+      + assert (Hrp : r <> p) by (intros ->; rewrite Ep in Er; injection Er as <-; congruence).
+        assert (Hrc : r <> c) by (intros ->; rewrite Ec in Er; injection Er as <-; congruence).
+        destruct (cc_old_node r rn Er Hrp Hrc) as [Hrn Er'].
+        exists r, (RT r rn). repeat split.
+        * rewrite V6, Eq. exact Hr.
+        * exact Er'.
+        * rewrite (cc_rt_parent r rn Er), Hpr. reflexivity.
+        * intros k nk' E Hpk. destruct (cc_nodes' k nk' E) as [[-> ->]|(H1 & H2 & H3 & nk & Enk & ->)]; [congruence|].
+          apply (Hu k nk Enk). rewrite (cc_rt_parent k nk Enk) in Hpk. destruct (parent nk) as [r2|]; [|reflexivity].
+          destruct (_ || _); discriminate.
+      + exists new, nn. repeat split.
+        * rewrite V6, Eq. reflexivity.
+        * exact V2.
+        * rewrite N1. exact Eq.
+        * intros k nk' E Hpk. destruct (cc_nodes' k nk' E) as [[-> ->]|(H1 & H2 & H3 & nk & Enk & ->)]; [reflexivity|].
+          exfalso. apply H1. rewrite (Hu p pn Ep Eq). apply (Hu k nk Enk).
+          rewrite (cc_rt_parent k nk Enk) in Hpk. destruct (parent nk) as [r2|]; [|reflexivity]. destruct (_ || _); discriminate.
+    - intros k nk' E. destruct (cc_nodes' k nk' E) as [[-> ->]|(H1 & H2 & H3 & nk & Enk & ->)].
+      + exact cc_node_inv_new.
+      + apply (cc_node_inv_other k nk Enk H1 H2).
+    - intros k nk' E. destruct (cc_nodes' k nk' E) as [[-> ->]|(H1 & H2 & H3 & nk & Enk & ->)].
+      + rewrite cc_tens_new. exact cc_own_nn_nodup.
+      + destruct (cc_own_other k nk Enk H1 H2 H3) as [-> _]. apply (wf_own1 s W k nk Enk).
+    - assert (Hx : forall k nk w, aget k (nodes s) = Some nk -> k <> p -> k <> c -> In w (own_of nk (tens s k)) ->
+                ~ In w (own_of nn nt)).
+      { intros k nk w Enk H1 H2 Hw Hw2. destruct (cc_own_nn_in w Hw2) as [Hw3|Hw3].
+        - apply H1. apply (wf_own2 s W k nk p pn w Enk Ep Hw Hw3).
+        - apply H2. apply (wf_own2 s W k nk c cn w Enk Ec Hw Hw3). }
+      intros k1 n1 k2 n2 w E1 E2 Hw1 Hw2.
+      destruct (cc_nodes' k1 n1 E1) as [[-> ->]|(H1 & H2 & H3 & m1 & Em1 & ->)];
+      destruct (cc_nodes' k2 n2 E2) as [[-> ->]|(H1' & H2' & H3' & m2 & Em2 & ->)].
+      + reflexivity.
+      + exfalso. rewrite cc_tens_new in Hw1. destruct (cc_own_other k2 m2 Em2 H1' H2' H3') as [Ho _]. rewrite Ho in Hw2.
+        apply (Hx k2 m2 w Em2 H1' H2' Hw2 Hw1).
+      + exfalso. rewrite cc_tens_new in Hw2. destruct (cc_own_other k1 m1 Em1 H1 H2 H3) as [Ho _]. rewrite Ho in Hw1.
+        apply (Hx k1 m1 w Em1 H1 H2 Hw1 Hw2).
+      + destruct (cc_own_other k1 m1 Em1 H1 H2 H3) as [Ho1 _]. destruct (cc_own_other k2 m2 Em2 H1' H2' H3') as [Ho2 _].
+        rewrite Ho1 in Hw1. rewrite Ho2 in Hw2. apply (wf_own2 s W k1 m1 k2 m2 w Em1 Em2 Hw1 Hw2).
+    - intros k t w Et Hw. rewrite V9.
+      rewrite V7, (contract_tensors_aget _ _ _ _ _ _ (wf_tnd s W) cc_fresh_t) in Et.
+      destruct (Nat.eqb_spec k new) as [->|H3].
+      + injection Et as <-. destruct cc_segments as (P0 & ch1 & ch2 & Hch & Hni & Hpch & Dp & HlenP0 & HP0 & Dc & Hnt).
+        assert (Hin : In w (lax s p pn) \/ In w (lax s c cn)).
+        { rewrite Hnt in Hw. rewrite Dp, Dc, Hch, Hpch in *. rewrite !map_app in *. cbn [map In].
+          repeat (rewrite in_app_iff in Hw). repeat rewrite in_app_iff. cbn [In]. tauto. }
+        destruct (contract_segments s p c pn cn ax nt W Ep Ec Hpc Pp Pc Hax Htd)
+          as (_ & _ & _ & _ & _ & _ & _ & _ & _ & _ & _ & _ & A1 & A2).
+        destruct Hin as [Hin|Hin].
+        * rewrite <- A1 in Hin. apply (wf_wires s W p _ w (wf_tens s p pn W Ep) Hin).
+        * rewrite <- A2 in Hin. apply (wf_wires s W c _ w (wf_tens s c cn W Ec) Hin).
+      + destruct (Nat.eqb k p || Nat.eqb k c); [discriminate|]. apply (wf_wires s W k t w Et Hw).
+    - intros w Hw. rewrite V8 in Hw. rewrite V9. apply (wf_dims s W w Hw).
+    - destruct (wf_acyc s W) as [d Hd]. exists (fun x => if Nat.eqb x new then d p else d x).
+      intros k nk' q E Hq. destruct (cc_nodes' k nk' E) as [[-> ->]|(H1 & H2 & H3 & nk & Enk & ->)].
+      + rewrite Nat.eqb_refl. destruct cc_nn as (N1 & _). rewrite N1 in Hq.
+        assert (Hqp : q <> p) by (intros ->; apply (wf_not_self_parent s p pn W Ep Hq)).
+        assert (Hqc : q <> c) by (intros ->; apply (wf_parent_not_child s c cn p pn W Ec Hpc Ep Hq)).
+        destruct (wf_parent_child s p pn q W Ep Hq) as (qn & Eqn & _).
+        destruct (cc_old_node q qn Eqn Hqp Hqc) as [Hqn _].
+        destruct (Nat.eqb_spec q new); [congruence|]. apply (Hd p pn q Ep Hq).
+      + destruct (Nat.eqb_spec k new); [congruence|]. rewrite (cc_rt_parent k nk Enk) in Hq.
+        destruct (parent nk) as [r|] eqn:Er; [|discriminate].
+        destruct (Nat.eqb_spec r p) as [->|Hrp]; [|destruct (Nat.eqb_spec r c) as [->|Hrc]]; cbn in Hq; injection Hq as <-.
+        * rewrite Nat.eqb_refl. apply (Hd k nk p Enk Er).
+        * rewrite Nat.eqb_refl. pose proof (Hd k nk c Enk Er). pose proof (Hd c cn p Ec Hpc). nlia.
+        * destruct (wf_parent_child s k nk r W Enk Er) as (rn & Ern & _).
+          destruct (cc_old_node r rn Ern Hrp Hrc) as [Hrn _].
+          destruct (Nat.eqb_spec r new); [congruence|]. apply (Hd k nk r Enk Er).
+  Qed.
+
+  (* the open-leg rule: the new node's open wires are p's followed by c's (or c's followed by p's when
+     the child was named first); every other node keeps its logical axes *)
+  Theorem cc_open_new : open_of nn (tens s' new) = (if first then PO ++ CO else CO ++ PO).
+  Proof. rewrite cc_tens_new. apply cc_own_nn. Qed.
+
+  Theorem cc_lax_others k nk : aget k (nodes s) = Some nk -> k <> p -> k <> c ->
+    exists nk', aget k (nodes s') = Some nk' /\ lax s' k nk' = lax s k nk /\ open_of nk' (tens s' k) = open_of nk (tens s k).
+  Proof.
+    intros E H1 H2. destruct (cc_old_node k nk E H1 H2) as [H3 E']. exists (RT k nk). repeat split.
+    - exact E'.
+    - apply (cc_lax_other k nk H1 H2 H3).
+    - apply (cc_own_other k nk E H1 H2 H3).
+  Qed.
+End ContractCore.
+
+
+(* ---- contract_nodes ------------------------------------------------------------------------------------ *)
+Lemma access_result s n s' nd t : access s n = Some (s', nd, t) ->
+  aget n (nodes s') = Some nd /\ aget n (tensors s') = Some t /\ perm nd = seq 0 (nlegs nd) /\
+  (forall k, k <> n -> aget k (nodes s') = aget k (nodes s) /\ aget k (tensors s') = aget k (tensors s)) /\
+  dims s' = dims s /\ next_wire s' = next_wire s /\ root s' = root s /\ akeys (nodes s') = akeys (nodes s) /\
+  exists nd0, aget n (nodes s) = Some nd0 /\ parent nd = parent nd0 /\ children nd = children nd0.
+Proof.
+  intros H. destruct (access_keys _ _ _ _ _ H) as (K1 & _ & _).
+  destruct (access_inv _ _ _ _ _ H) as (nd0 & t0 & En & Et & -> & -> & ->). cbn.
+  repeat split; auto.
+  - apply aget_aset_same.
+  - apply aget_aset_same.
+  - unfold nlegs. cbn. rewrite seq_length. reflexivity.
+  - apply aget_aset_other. exact H0.
+  - apply aget_aset_other. exact H0.
+  - exists nd0. auto.
+Qed.
+
+Lemma determine_parentage_inv s a b p c : determine_parentage s a b = Some (p, c) ->
+  exists na nb, aget a (nodes s) = Some na /\ aget b (nodes s) = Some nb /\
+    ((p = a /\ c = b /\ parent nb = Some a) \/ (p = b /\ c = a /\ parent na = Some b)).
+Proof.
+  unfold determine_parentage. destruct (aget a (nodes s)) as [na|]; [|discriminate].
+  destruct (aget b (nodes s)) as [nb|]; [|discriminate]. exists na, nb. split; [reflexivity|split; [reflexivity|]].
+  destruct (parent nb) as [q|] eqn:Eb.
+  - destruct (Nat.eqb_spec q a) as [->|Hq].
+    + injection H as <- <-. left. auto.
+    + destruct (parent na) as [r|] eqn:Ea; [|discriminate]. destruct (Nat.eqb_spec r b) as [->|]; [|discriminate].
+      injection H as <- <-. right. auto.
+  - destruct (parent na) as [r|] eqn:Ea; [|discriminate]. destruct (Nat.eqb_spec r b) as [->|]; [|discriminate].
+    injection H as <- <-. right. auto.
+Qed.
+
+Record contract_facts (s : store) (a b new : id) (s' : store) (p c : id) (s2 : store) (pn cn nn : node) (ax : nat) (nt : sarr) : Prop := {
+  cf_pc : (p = a /\ c = b) \/ (p = b /\ c = a);
+  cf_ab : a <> b;
+  cf_wf2 : wf s2;
+  cf_p : aget p (nodes s2) = Some pn;
+  cf_c : aget c (nodes s2) = Some cn;
+  cf_par : parent cn = Some p;
+  cf_pp : perm pn = seq 0 (nlegs pn);
+  cf_pc' : perm cn = seq 0 (nlegs cn);
+  cf_ax : neighbour_index pn c = Some ax;
+  cf_td : s_tensordot (tens s2 p) (tens s2 c) ax 0 = Some nt;
+  cf_nn : create_contracted_node (map (wdim s2) (axes nt)) pn cn c (Nat.eqb p a) = Some nn;
+  cf_keys : akeys (nodes s2) = akeys (nodes s);
+  cf_lax : forall k nk, aget k (nodes s) = Some nk ->
+           exists nk2, aget k (nodes s2) = Some nk2 /\ parent nk2 = parent nk /\ children nk2 = children nk /\ lax s2 k nk2 = lax s k nk;
+  cf_atoms : total_atoms s2 = total_atoms s;
+  cf_ends : Permutation (total_ends s2) (total_ends s);
+  cf_tkeys : akeys (tensors s2) = akeys (tensors s);
+  cf_view : NoDup (akeys (nodes s')) /\ aget new (nodes s') = Some nn /\
+            (p <> new -> aget p (nodes s') = None) /\ (c <> new -> aget c (nodes s') = None) /\
+            (forall k, k <> p -> k <> c -> k <> new ->
+               aget k (nodes s') = option_map (rt p c new (children pn) (children cn) (parent pn) k) (aget k (nodes s2))) /\
+            root s' = (match parent pn with None => Some new | Some _ => root s2 end) /\
+            tensors s' = adel c (adel p (tensors s2)) ++ [(new, nt)] /\ dims s' = dims s2 /\ next_wire s' = next_wire s2
+}.
+
+Lemma contract_inv s a b new s' :
+  wf s -> contract_nodes s a b new = Some s' -> (new = a \/ new = b \/ ~ In new (akeys (nodes s))) ->
+  exists p c s2 pn cn nn ax nt, contract_facts s a b new s' p c s2 pn cn nn ax nt.
+Proof.
+  intros W H Hnew. unfold contract_nodes in H.
+  destruct (determine_parentage s a b) as [[p c]|] eqn:Edp; [|discriminate].
+  destruct (access s p) as [[[s1 pn] pt]|] eqn:A1; [|discriminate].
+  destruct (access s1 c) as [[[s2 cn] ct]|] eqn:A2; [|discriminate].
+  destruct (neighbour_index pn c) as [ax|] eqn:Eax; [|discriminate].
+  destruct (s_tensordot pt ct ax 0) as [nt|] eqn:Etd; [|discriminate].
+  destruct (create_contracted_node _ pn cn c (p =? a)) as [nn|] eqn:Enn; [|discriminate].
+  match type of H with match ?r with _ => _ end = _ => destruct r as [s4|] eqn:R4; [|discriminate] end.
+  destruct (replace_node_in_neighbours s4 new c true) as [s5|] eqn:R5; [|discriminate].
+  injection H as <-.
+  destruct (determine_parentage_inv s a b p c Edp) as (na & nb & Ea & Eb & Hcase).
+  pose proof (access_preserves_wf s p s1 pn pt W A1) as W1.
+  pose proof (access_preserves_wf s1 c s2 cn ct W1 A2) as W2.
+  destruct (access_result _ _ _ _ _ A1) as (B1 & B2 & B3 & B4 & B5 & B6 & B7 & B8 & (pn0 & B9 & B10 & B11)).
+  destruct (access_result _ _ _ _ _ A2) as (C1 & C2 & C3 & C4 & C5 & C6 & C7 & C8 & (cn0 & C9 & C10 & C11)).
+  assert (Hpcne : p <> c /\ a <> b /\ parent cn0 = Some p /\ aget c (nodes s) = Some cn0).
+  { destruct Hcase as [(-> & -> & Hp)|(-> & -> & Hp)].
+    - assert (a <> b) by (intros ->; apply (wf_not_self_parent s b nb W Eb Hp)).
+      destruct (B4 b (not_eq_sym H)) as [B4a _]. rewrite B4a, Eb in C9. injection C9 as <-. auto.
+    - assert (b <> a) by (intros ->; apply (wf_not_self_parent s a na W Ea Hp)).
+      destruct (B4 a (not_eq_sym H)) as [B4a _]. rewrite B4a, Ea in C9. injection C9 as <-. auto. }
+  destruct Hpcne as (Hpc & Hab & Hparc & Ec0).
+  destruct (C4 p Hpc) as [C4a C4b].
+  assert (Hnew2 : new = p \/ new = c \/ ~ In new (akeys (nodes s2))).
+  { rewrite C8, B8. destruct Hcase as [(-> & -> & _)|(-> & -> & _)]; tauto. }
+  assert (Hp2 : aget p (nodes s2) = Some pn) by (rewrite C4a; exact B1).
+  assert (Hparc2 : parent cn = Some p) by (rewrite C10; exact Hparc).
+  assert (Hwd : map (wdim s) (axes nt) = map (wdim s2) (axes nt)).
+  { apply map_ext. intros w. unfold wdim. rewrite C5, B5. reflexivity. }
+  rewrite Hwd in Enn.
+  assert (Hpt : tens s2 p = pt) by (apply tens_aget; rewrite C4b; exact B2).
+  assert (Hct : tens s2 c = ct) by (apply tens_aget; exact C2).
+  exists p, c, s2, pn, cn, nn, ax, nt. constructor; auto.
+  - destruct Hcase as [(-> & -> & _)|(-> & -> & _)]; auto.
+  - rewrite Hpt, Hct. exact Etd.
+  - rewrite C8, B8. reflexivity.
+  - intros k nk E. destruct (access_lax s p s1 pn pt k nk W A1 E) as (nk1 & E1 & P1 & P2 & P3).
+    destruct (access_lax s1 c s2 cn ct k nk1 W1 A2 E1) as (nk2 & E2 & Q1 & Q2 & Q3).
+    exists nk2. repeat split; congruence.
+  - rewrite (access_total_atoms s1 c s2 cn ct W1 A2). apply (access_total_atoms s p s1 pn pt W A1).
+  - rewrite (access_total_ends s1 c s2 cn ct W1 A2). apply (access_total_ends s p s1 pn pt W A1).
+  - destruct (access_keys _ _ _ _ _ A1) as (_ & K1 & _). destruct (access_keys _ _ _ _ _ A2) as (_ & K2 & _). congruence.
+  - apply (contract_view s2 p c pn cn new nt nn s4 s5 W2 Hp2 C1 Hparc2 Hnew2 R4 R5).
+Qed.
+
+Theorem contract_preserves_wf s a b new s' :
+  wf s -> contract_nodes s a b new = Some s' -> (new = a \/ new = b \/ ~ In new (akeys (nodes s))) -> wf s'.
+Proof.
+  intros W H Hnew. destruct (contract_inv s a b new s' W H Hnew) as (p & c & s2 & pn & cn & nn & ax & nt & F).
+  destruct F as [Fpc Fab Fwf2 Fp Fc Fpar Fpp Fpc' Fax Ftd Fnn Fkeys Flax Fatoms Fends Ftkeys Fview].
+  destruct Fview as (V1 & V2 & V3 & V4 & V5 & V6 & V7 & V8 & V9).
+  assert (Hnew2 : new = p \/ new = c \/ ~ In new (akeys (nodes s2))).
+  { rewrite Fkeys. destruct Fpc as [[-> ->]|[-> ->]]; tauto. }
+  apply (cc_wf s2 s' p c new pn cn nn ax nt (Nat.eqb p a)); assumption.
+Qed.
+
+Theorem contract_preserves_wfb s a b new s' :
+  wfb s = true -> contract_nodes s a b new = Some s' -> (new = a \/ new = b \/ ~ In new (akeys (nodes s))) -> wfb s' = true.
+Proof. intros W H Hnew. apply wf_wfb. apply (contract_preserves_wf s a b new s'); [apply wfb_wf; exact W|exact H|exact Hnew]. Qed.
+
+
+(* ---- diagram totals and the open-leg rule ------------------------------------------------------------------ *)
+Lemma flat_map_adel_perm {V W} (f : nat * V -> list W) k v l :
+  aget k l = Some v -> Permutation (flat_map f l) (f (k, v) ++ flat_map f (adel k l)).
+Proof.
+  induction l as [|[k' v'] t IH]; cbn; [discriminate|].
+  destruct (Nat.eqb_spec k k') as [->|Hne].
+  - intros [= ->]. reflexivity.
+  - intros E. cbn. rewrite (IH E). rewrite !app_assoc. apply Permutation_app_tail. apply Permutation_app_comm.
+Qed.
+
+(* Permutation of nat lists by counting occurrences *)
+Ltac perm_count :=
+  apply (Permutation_count_occ Nat.eq_dec); intros ?x;
+  repeat (rewrite ?count_occ_app, ?map_app; cbn [count_occ app map]);
+  repeat match goal with |- context [Nat.eq_dec ?a ?b] => destruct (Nat.eq_dec a b) end; lia.
+
+Lemma contract_tensors_perm {W} (f : nat * sarr -> list W) (T : list (id * sarr)) p c new pt ct nt :
+  p <> c -> aget p T = Some pt -> aget c T = Some ct ->
+  Permutation (f (new, nt)) (f (p, pt) ++ f (c, ct)) ->
+  Permutation (flat_map f (adel c (adel p T) ++ [(new, nt)])) (flat_map f T).
+Proof.
+  intros Hpc Ep Ec Hf. rewrite flat_map_app. cbn [flat_map]. rewrite app_nil_r.
+  rewrite (flat_map_adel_perm f p pt T Ep).
+  assert (Ec' : aget c (adel p T) = Some ct) by (rewrite aget_adel_other by congruence; exact Ec).
+  rewrite (flat_map_adel_perm f c ct (adel p T) Ec'). rewrite Hf.
+  etransitivity; [apply Permutation_app_comm|]. rewrite <- app_assoc. reflexivity.
+Qed.
+
+Theorem contract_total_atoms s a b new s' :
+  wf s -> contract_nodes s a b new = Some s' -> (new = a \/ new = b \/ ~ In new (akeys (nodes s))) ->
+  Permutation (total_atoms s') (total_atoms s).
+Proof.
+  intros W H Hnew. destruct (contract_inv s a b new s' W H Hnew) as (p & c & s2 & pn & cn & nn & ax & nt & F).
+  destruct F as [Fpc Fab Fwf2 Fp Fc Fpar Fpp Fpc' Fax Ftd Fnn Fkeys Flax Fatoms Fends Ftkeys Fview]. destruct Fview as (_ & _ & _ & _ & _ & _ & V7 & _).
+  rewrite <- Fatoms. unfold total_atoms. rewrite V7.
+  assert (Hpc : p <> c) by (intros ->; apply (wf_not_self_parent s2 c cn Fwf2 Fc Fpar)).
+  apply (contract_tensors_perm _ _ p c new (tens s2 p) (tens s2 c) nt Hpc
+           (wf_tens s2 p pn Fwf2 Fp) (wf_tens s2 c cn Fwf2 Fc)).
+  cbn [snd].
+  destruct (contract_segments s2 p c pn cn ax nt Fwf2 Fp Fc Fpar Fpp Fpc' Fax Ftd)
+    as (P0 & ch1 & ch2 & _ & _ & _ & _ & _ & _ & _ & Hat & _). rewrite Hat. reflexivity.
+Qed.
+
+(* the contracted wire's two axis ends become one bound wire, counted twice *)
+Theorem contract_total_ends s a b new s' :
+  wf s -> contract_nodes s a b new = Some s' -> (new = a \/ new = b \/ ~ In new (akeys (nodes s))) ->
+  Permutation (total_ends s') (total_ends s).
+Proof.
+  intros W H Hnew. destruct (contract_inv s a b new s' W H Hnew) as (p & c & s2 & pn & cn & nn & ax & nt & F).
+  destruct F as [Fpc Fab Fwf2 Fp Fc Fpar Fpp Fpc' Fax Ftd Fnn Fkeys Flax Fatoms Fends Ftkeys Fview]. destruct Fview as (_ & _ & _ & _ & _ & _ & V7 & _).
+  rewrite <- Fends. unfold total_ends. rewrite V7.
+  assert (Hpc : p <> c) by (intros ->; apply (wf_not_self_parent s2 c cn Fwf2 Fc Fpar)).
+  apply (contract_tensors_perm _ _ p c new (tens s2 p) (tens s2 c) nt Hpc
+           (wf_tens s2 p pn Fwf2 Fp) (wf_tens s2 c cn Fwf2 Fc)).
+  cbn [snd]. unfold sarr_ends.
+  destruct (contract_segments s2 p c pn cn ax nt Fwf2 Fp Fc Fpar Fpp Fpc' Fax Ftd)
+    as (P0 & ch1 & ch2 & Hch & _ & Dp & _ & _ & Dc & Hnt & _ & Hbnd & A1 & A2).
+  rewrite Hnt, Hbnd, A1, A2, Dp, Dc, Hch. unfold id, wire in *. perm_count.
+Qed.
+
+(* the new node's open wires are a's followed by b's; every other node keeps its logical axes *)
+Theorem contract_open_rule s a b new s' na nb :
+  wf s -> contract_nodes s a b new = Some s' -> (new = a \/ new = b \/ ~ In new (akeys (nodes s))) ->
+  aget a (nodes s) = Some na -> aget b (nodes s) = Some nb ->
+  exists nn, aget new (nodes s') = Some nn /\
+    open_of nn (tens s' new) = open_of na (tens s a) ++ open_of nb (tens s b) /\
+    forall k nk, aget k (nodes s) = Some nk -> k <> a -> k <> b ->
+      exists nk', aget k (nodes s') = Some nk' /\ lax s' k nk' = lax s k nk /\
+                  open_of nk' (tens s' k) = open_of nk (tens s k).
+Proof.
+  intros W H Hnew Ea Eb. destruct (contract_inv s a b new s' W H Hnew) as (p & c & s2 & pn & cn & nn & ax & nt & F).
+  destruct F as [Fpc Fab Fwf2 Fp Fc Fpar Fpp Fpc' Fax Ftd Fnn Fkeys Flax Fatoms Fends Ftkeys Fview]. destruct Fview as (V1 & V2 & V3 & V4 & V5 & V6 & V7 & V8 & V9).
+  assert (Hnew2 : new = p \/ new = c \/ ~ In new (akeys (nodes s2))).
+  { rewrite Fkeys. destruct Fpc as [[-> ->]|[-> ->]]; tauto. }
+  assert (Hopen : forall k nk nk2, aget k (nodes s) = Some nk -> aget k (nodes s2) = Some nk2 ->
+            open_of nk2 (tens s2 k) = open_of nk (tens s k) /\ lax s2 k nk2 = lax s k nk).
+  { intros k nk nk2 E E2. destruct (Flax k nk E) as (nk2' & E2' & Q1 & Q2 & Q3).
+    rewrite E2 in E2'. injection E2' as <-. split; [|exact Q3]. apply open_of_ext; assumption. }
+  exists nn. split; [exact V2|]. split.
+  - rewrite (cc_open_new s2 s' p c new pn cn nn ax nt (Nat.eqb p a)); try assumption.
+    destruct Fpc as [[-> ->]|[-> ->]].
+    + rewrite Nat.eqb_refl. destruct (Hopen a na pn Ea Fp) as [-> _]. destruct (Hopen b nb cn Eb Fc) as [-> _]. reflexivity.
+    + destruct (Nat.eqb_spec b a) as [Hba|_]; [congruence|].
+      destruct (Hopen b nb pn Eb Fp) as [-> _]. destruct (Hopen a na cn Ea Fc) as [-> _]. reflexivity.
+  - intros k nk E Hka Hkb. destruct (Flax k nk E) as (nk2 & E2 & Q1 & Q2 & Q3).
+    assert (Hkp : k <> p /\ k <> c) by (destruct Fpc as [[-> ->]|[-> ->]]; auto).
+    destruct Hkp as [Hkp Hkc].
+    destruct (cc_lax_others s2 s' p c new pn cn nt Fwf2 Fp Fc Fpar Hnew2 V5 V7 k nk2 E2 Hkp Hkc)
+      as (nk' & E' & L1 & L2).
+    exists nk'. split; [exact E'|]. destruct (Hopen k nk nk2 E E2) as [O1 O2]. split; congruence.
+Qed.
+
+
+(* the side condition on the new identifier is needed: neither the model nor ttn.py checks it, and the
+   identifier of a third node makes the contraction overwrite that node (here: root 0 with children 1, 2;
+   contracting 0 and 1 into "2" leaves a single node that is its own child) *)
+Example contract_third_id_counterexample :
+  let s := fst (run empty_store [AddRoot 0 [2; 3; 2]; AddChild 1 [2; 2] 1 0 0; AddChild 2 [3; 2] 0 0 1]) in
+  wfb s = true /\
+  match contract_nodes s 0 1 2 with
+  | Some s' => wfb s' = false /\ akeys (nodes s') = [2] /\ option_map children (aget 2 (nodes s')) = Some [2]
+  | None => False
+  end.
+Proof. vm_compute. repeat split; reflexivity. Qed.
